@@ -1737,6 +1737,11 @@ export class SetRuntype extends BaseRuntype {
 }
 
 function lookupOwn<T>(record: Record<string, T>, key: any): T | undefined {
+  // discriminator values are string literals; anything else cannot select a variant (and must not be
+  // coerced to a property key: that can throw for objects without a usable toString/valueOf)
+  if (typeof key !== "string") {
+    return undefined;
+  }
   return Object.prototype.hasOwnProperty.call(record, key) ? record[key] : undefined;
 }
 
